@@ -280,6 +280,11 @@ def atoms : List Sexp → Option (List String)
 def answer (xs : List Sexp) : String :=
   match xs with
   -- type fragment emitted for a shape
+  -- a struct with `#[type_to_idl(skip)]` on field K: `(skipstruct K F1 … Fn)`
+  | [.atom "ty", .atom _, .list (.atom "skipstruct" :: .atom k :: fs)] =>
+    match parseNat k, fs.mapM parseShape with
+    | some k, some fs => "ok " ++ showIdlTy (typeToIdlSkip fs k)
+    | _, _ => "bad-op"
   | [.atom "ty", .atom _, sh] =>
     match parseShape sh with
     | some s => "ok " ++ showIdlTy (typeToIdl s)
